@@ -15,14 +15,18 @@ STRS = ['"x"', '"a b"', '"(p)"', '"a~b"', '"q/:r"', '"\\"q\\""', '"#h"', '""', '
 CONCEPTS = ['alpha', 'beta', 'bark-01', 'i', 'a', 'b', 'have-mod-91', '"str"', '7', 'A',
             '\u03b5', '"~x"', '-', 'x1', '_']
 VARPOOL = ['a', 'b', 'c', 'd', 'e', 'f', 'g', 'h', 'i', 'x1', 'x2', '_', '_2', 'i2', 'a2',
-           'v\u00e9', 'n0', 'zz']
+           'v\u00e9', 'n0', 'zz', '10', '2.5', '-1', '_3', '_5']
+# ('10', '2.5', '-1' are legal variables - Variable <- Symbol - that look like numbers;
+#  '_3', '_5' leave gaps in the numbering of generated '_N' variables)
 
 DEFAULT = RefModel(name='default')
 
 
-def mk_aln(rng):
+def mk_aln(rng, zero_pad=False):
     pre = rng.choice(['', '', 'e.', 'e', 'x.', 'E.', 'Z'])
     idx = [str(rng.randrange(0, 30)) for _ in range(rng.choice([1, 1, 1, 2, 3]))]
+    if zero_pad:
+        idx = ['0' + x for x in idx]
     return '~' + pre + ','.join(idx)
 
 
@@ -245,7 +249,8 @@ def mangle(rng, node, rm=None):
             if y < 0.08:
                 out.append((r, t))                      # duplicate branch
             elif y < 0.12:
-                out.append((':instance', rng.choice(CONCEPTS)))   # written :instance
+                out.append((':instance' + (mk_aln(rng) if rng.random() < 0.4 else ''),
+                            rng.choice(CONCEPTS)))   # written :instance (possibly aligned)
             elif y < 0.16:
                 out.append((rng.choice(ROLES_PLAIN), None))       # missing target
             elif y < 0.20:
